@@ -615,6 +615,7 @@ static int _GD_Change(DIRFILE *D, const char *field_code, const gd_entry_t *N,
         Q.EN(linterp,table) = _GD_Strdup(D, N->EN(linterp,table));
         Qe.u.linterp.table_file = NULL;
         Qe.u.linterp.table_len = -1; /* not read yet */
+        Qe.u.linterp.lut = NULL; /* the old table is freed below */
 
         if (Q.EN(linterp,table) == NULL)
           break;
